@@ -517,6 +517,10 @@ def division_method_targets(facts):
             out.append((b, checked(o_div), "return", b.name))
         if b.path == "bigint::BigInt::checked_div":
             out.append((b, checked(o_div), "return", b.name))
+        # the total checked forms: Some(a op b) in every case
+        for tr, nm, o in (("num_traits::CheckedAdd", "checked_add", o_add), ("num_traits::CheckedSub", "checked_sub", o_sub), ("num_traits::CheckedMul", "checked_mul", o_mul)):
+            if (b.trait == tr and b.self_ty == "bigint::BigInt") or b.path == "bigint::BigInt::" + nm:
+                out.append((b, checked(o), "return", nm + " = Some(a op b)"))
     return out
 
 
@@ -564,8 +568,8 @@ def check_division_methods(ctx, res):
         res,
         division_method_targets,
         "R5-division-convention",
-        13,
-        "R5: div_rem, div_floor, mod_floor, div_mod_floor, div_ceil, div_euclid, rem_euclid, div_rem_euclid and the checked variants of BigInt equal the textbook tables in (sa, sb, Q, R, [R=0]); zero divisor -> panic / None",
+        19,
+        "R5: div_rem, div_floor, mod_floor, div_mod_floor, div_ceil, div_euclid, rem_euclid, div_rem_euclid and the checked variants of BigInt equal the textbook tables (checked_add/sub/mul = Some(a op b), trait and inherent forms) in (sa, sb, Q, R, [R=0]); zero divisor -> panic / None",
     )
 
 
@@ -874,6 +878,9 @@ def power_targets(facts):
     for b in facts.bodies:
         if b.trait == "num_traits::Pow" and b.self_ty in ("bigint::BigInt", "&bigint::BigInt") and b.name == "pow":
             out.append((b, o_pow, "return", "powsign(s,e) * |a|^e"))
+    b = facts.body("bigint::BigInt::pow")
+    if b is not None:
+        out.append((b, o_pow, "return", "powsign(s,e) * |a|^e (inherent method)"))
     return out
 
 
@@ -881,6 +888,9 @@ def modular_targets(facts):
     out = []
     for b in facts.find(suffix="bigint::power::modpow"):
         out.append((b, o_modpow, "return", "floor-mod representative of b^e mod m"))
+    b = facts.body("bigint::BigInt::modpow")
+    if b is not None:
+        out.append((b, o_modpow, "return", "floor-mod representative of b^e mod m (inherent method)"))
     for b in facts.find(suffix="bigint::BigInt::modinv"):
         out.append((b, o_modinv, "return", "floor-mod representative of the inverse"))
     return out
@@ -891,6 +901,10 @@ def root_targets(facts):
     for nm, deg in (("nth_root", True), ("sqrt", False), ("cbrt", False)):
         for b in facts.find(trait="num_integer::Roots", self_ty="bigint::BigInt", name=nm):
             out.append((b, o_root(nm, deg), "return", "sign(a) * root(|a|)"))
+        # the inherent methods of the same name must behave identically (they forward today)
+        b = facts.body("bigint::BigInt::" + nm)
+        if b is not None:
+            out.append((b, o_root(nm, deg), "return", "sign(a) * root(|a|) (inherent method)"))
     return out
 
 
@@ -899,15 +913,15 @@ def check_helpers(ctx, res):
 
 
 def check_powers(ctx, res):
-    run_targets(ctx, res, power_targets, "R5-pow-sign", 20, "R5: powsign table and BigInt::pow = powsign(sign, e) * |a|^e for all exponent types and val/ref forms")
+    run_targets(ctx, res, power_targets, "R5-pow-sign", 30, "R5: powsign table and BigInt::pow = powsign(sign, e) * |a|^e for all exponent types and val/ref forms")
 
 
 def check_modular(ctx, res):
-    run_targets(ctx, res, modular_targets, "R5-modular-sign", 2, "R5: BigInt::modpow / modinv place the unsigned residue as the floor-mod representative in all sign cases, including residue 0; guards panic")
+    run_targets(ctx, res, modular_targets, "R5-modular-sign", 3, "R5: BigInt::modpow / modinv place the unsigned residue as the floor-mod representative in all sign cases, including residue 0; guards panic")
 
 
 def check_roots(ctx, res):
-    run_targets(ctx, res, root_targets, "R5-root-sign", 3, "R5: BigInt roots = sign(a) * root(|a|); even root / sqrt of a negative panics")
+    run_targets(ctx, res, root_targets, "R5-root-sign", 6, "R5: BigInt roots = sign(a) * root(|a|); even root / sqrt of a negative panics")
 
 
 # ------------------------------------------------------------------------------------------
